@@ -378,72 +378,139 @@ func c20R4(e *Engine) {
 		return
 	}
 	useF := e.field("core", "Table", "UseNativeInterpreter")
+	// the calls of the two interpreters: in the function itself or in a package-local helper it calls (the language
+	// call behind a helper that raises the documented panic, say)
 	var nativeCall, langCall *ssa.Call
-	instrs(im, func(in ssa.Instruction) {
+	langHelpers := map[*ssa.Function]bool{}
+	e.walkLocal("core", im, 2, func(in ssa.Instruction, ctx []callCtx) {
 		c, ok := in.(*ssa.Call)
 		if !ok || c.Call.StaticCallee() == nil {
 			return
 		}
 		switch e.fname(c.Call.StaticCallee()) {
 		case "interp.Native.Match":
-			nativeCall = c
+			if len(ctx) == 0 {
+				nativeCall = c
+			}
 		case "interp.Language.Match":
 			langCall = c
+			for _, cc := range ctx {
+				langHelpers[cc.callee] = true
+			}
 		}
 	})
 	if nativeCall == nil || langCall == nil {
 		e.fail("R4", "core.Table.interpreterMatch:fallback", e.pos(im.Pos()), "expected one call of Native.Match and one of Language.Match (native:%v language:%v)", nativeCall != nil, langCall != nil)
 	} else {
-		// native guarded by UseNativeInterpreter – and by nothing else: every request of a table that uses the native
-		// interpreter is offered to it (a remembered miss, say, would hide matchers registered later or for another kind)
-		guarded := false
-		for _, cd := range condsAt(nativeCall.Block()) {
-			cd = normCond(cd)
-			if cd.Val && isLoadOfField(cd.V, useF) {
-				guarded = true
-				continue
-			}
-			e.fail("R4", "core.Table.interpreterMatch:native-always-consulted", e.ipos(nativeCall), "the native interpreter is consulted only when additionally %s holds: for a table that uses the native interpreter some requests never reach the registered matchers", cd.V.String())
-		}
-		if len(nativeCall.Block().Preds) > 1 {
-			e.fail("R4", "core.Table.interpreterMatch:native-always-consulted", e.ipos(nativeCall), "the call of the native interpreter is reached through a join of several branches: whether every request of a native table is offered to it cannot be established")
-		}
-		// returns: the native verdict is returned only on err==nil; language verdict otherwise
-		okRet := true
-		nRet := 0
-		for _, r := range returnsOf(im) {
-			v := retVals(r)[0]
-			switch {
-			case derivesFrom(v, nativeCall):
-				nRet++
-				errs := extractOf(nativeCall, 1)
-				isNil := false
-				for _, ev := range errs {
-					if n, _ := knownNilness(r.Block(), func(x ssa.Value) bool { return x == ev }); n {
-						isNil = true
+		// decision table over (table uses the native interpreter, the native interpreter knows the expression, its
+		// verdict, the language interpreter's verdict); every other test the function makes is tried both ways. The
+		// verdict must be the native one iff the table uses the native interpreter AND it answered without error –
+		// the language interpreter's otherwise. A remembered miss, a per-kind switch, a size test … all show up as a
+		// case in which the registered matcher is not the one that decides.
+		var probs []string
+		cases := 0
+		for n := 0; n < 16; n++ {
+			u, en, vn, vl := n&1 != 0, n&2 != 0, n&4 != 0, n&8 != 0
+			free := map[ssa.Value]bool{}
+			var freeOrder []ssa.Value
+			for mask := 0; ; mask++ {
+				if mask >= 1<<uint(len(freeOrder)) && mask > 0 {
+					break
+				}
+				for i, v := range freeOrder {
+					free[v] = mask&(1<<uint(i)) != 0
+				}
+				grew := false
+				ret, evalAt, ok := interpBool(im, func(v ssa.Value) (bool, bool) {
+					switch x := v.(type) {
+					case *ssa.UnOp:
+						if x.Op == token.NOT {
+							return false, false
+						}
+						if isLoadOfField(x, useF) {
+							return u, true
+						}
+					case *ssa.Field:
+						if fieldOf(x) == useF {
+							return u, true
+						}
+					case *ssa.BinOp:
+						if isBoolType(x.X.Type()) {
+							return false, false
+						}
+						if (x.Op == token.EQL || x.Op == token.NEQ) && isNilConst(x.Y) {
+							if ex, isEx := x.X.(*ssa.Extract); isEx && ex.Tuple == ssa.Value(nativeCall) && ex.Index == 1 {
+								return en == (x.Op == token.EQL), true
+							}
+							if ex, isEx := x.X.(*ssa.Extract); isEx && ex.Tuple == ssa.Value(langCall) && ex.Index == 1 {
+								return x.Op == token.EQL, true // the language interpreter answered (its error is the panic clause below)
+							}
+						}
+					case *ssa.Extract:
+						if x.Tuple == ssa.Value(nativeCall) && x.Index == 0 {
+							return vn, true
+						}
+						if x.Tuple == ssa.Value(langCall) && x.Index == 0 {
+							return vl, true
+						}
+					case *ssa.Call:
+						if g := x.Call.StaticCallee(); g != nil && langHelpers[g] && isBoolType(x.Type()) {
+							return vl, true
+						}
+					case *ssa.Const, *ssa.Phi:
+						return false, false
 					}
+					if !isBoolType(v.Type()) {
+						return false, false
+					}
+					if val, have := free[v]; have {
+						return val, true
+					}
+					if len(freeOrder) < 3 {
+						freeOrder = append(freeOrder, v)
+						free[v] = false
+						grew = true
+						return false, true
+					}
+					return false, false
+				})
+				if grew {
+					mask = -1
+					continue
 				}
-				if !isNil {
-					okRet = false
+				cases++
+				want := vl
+				if u && en {
+					want = vn
 				}
-			case derivesFrom(v, langCall):
-				nRet++
-			default:
-				okRet = false
+				got, decided := false, false
+				if ok {
+					got, decided = evalAt(retVals(ret)[0])
+				}
+				desc := fmt.Sprintf("table uses the native interpreter:%v, it knows the expression:%v (verdict %v), language verdict %v", u, en, vn, vl)
+				for _, v := range freeOrder {
+					desc += fmt.Sprintf("; %s=%v", v.String(), free[v])
+				}
+				switch {
+				case !decided:
+					probs = append(probs, "the verdict could not be evaluated for: "+desc)
+				case got != want:
+					probs = append(probs, fmt.Sprintf("the verdict is %v, expected %v – %s", got, want, desc))
+				}
+				if len(freeOrder) == 0 {
+					break
+				}
 			}
 		}
-		// the language call must be reachable when native errs: it is not confined to !UseNativeInterpreter
-		fallback := true
-		for _, cd := range condsAt(langCall.Block()) {
-			cd = normCond(cd)
-			if isLoadOfField(cd.V, useF) {
-				fallback = false
-			}
+		if len(probs) > 0 {
+			sort.Strings(probs)
+			e.fail("R4", "core.Table.interpreterMatch:fallback", e.ipos(nativeCall), "%s (%d more): the native verdict must decide iff the table uses the native interpreter and it answered without error, the language interpreter otherwise", probs[0], len(probs)-1)
+		} else {
+			e.pass("R4", "core.Table.interpreterMatch:fallback", e.ipos(nativeCall), "decision table over %d cases: native verdict iff UseNativeInterpreter and err == nil, language verdict otherwise; no other test takes part", cases)
 		}
-		e.check(guarded && okRet && nRet >= 2 && fallback, "R4", "core.Table.interpreterMatch:fallback", e.ipos(nativeCall), "native verdict used iff UseNativeInterpreter and err==nil; otherwise the language interpreter decides (guarded:%v returns-ok:%v fallback-reachable:%v)", guarded, okRet, fallback)
-		// language error is not swallowed: panics with the error
+		// language error is not swallowed: panics with the error (in the function or in the helper that makes the call)
 		pan := false
-		instrs(im, func(in ssa.Instruction) {
+		instrs(langCall.Parent(), func(in ssa.Instruction) {
 			if p, ok := in.(*ssa.Panic); ok && derivesFrom(p.X, langCall) {
 				if _, nn := knownNilness(p.Block(), func(x ssa.Value) bool { return derivesFrom(x, langCall) }); nn {
 					pan = true
